@@ -329,6 +329,22 @@ def rules(src):
             else:
                 s.norm, s.detail = "NotNormalised", "no sort+unique after the parallel_for"
 
+    # ---- the parallel stable sort itself: mergeRec must split ties the stable way
+    t = src.get("src/parallel.h", "")
+    m = re.search(r"\bvoid mergeRec\s*\(", t)
+    if m:
+        s = add("src/parallel.h", m.start(), "mergeRec (parallel merge of manifold::stable_sort)", "SortImplementation")
+        body = t[m.start():balanced(t, t.index("{", m.start()), "{", "}")]
+        left = re.search(r"if \(length1 > length2\) \{\s*q1 = p1 \+ length1 / 2;\s*auto end = std::(\w+)\(src \+ p2, src \+ r2, src\[q1\], comp\);\s*q2 = std::distance\(src, end\);\s*\} else \{\s*q2 = p2 \+ length2 / 2;\s*auto end = std::(\w+)\(src \+ p1, src \+ r1, src\[q2\], comp\);\s*q1 = std::distance\(src, end\);", body)
+        leaf = re.search(r"std::merge\(src \+ p1, src \+ r1, src \+ p2, src \+ r2, dest \+ p3, comp\);", body)
+        seqleaf = re.search(r"std::stable_sort\(dest \+ begin, dest \+ end, comp\);", t)
+        if not left or not leaf or not seqleaf:
+            s.norm, s.detail = "NotNormalised", "mergeRec / mergeSortRec do not have the recognised shape"
+        elif (left.group(1), left.group(2)) != ("lower_bound", "upper_bound"):
+            s.norm, s.detail = "UnstableSort", "mergeRec splits with (%s, %s); stability needs lower_bound for a left pivot and upper_bound for a right pivot" % (left.group(1), left.group(2))
+        else:
+            s.norm, s.detail = "StableMergeBounds", "left pivot: lower_bound on the right run; right pivot: upper_bound on the left run; leaves std::merge / std::stable_sort"
+
     # ---- AtomicAdd ---------------------------------------------------------
     for f, t in src.items():
         if f in ("src/utils.h", "src/atomic_compat.h"):
